@@ -549,12 +549,25 @@ func (e *Enc) discharge(o *Obl, fkey string, opts *VerifyOpts) *OblResult {
 		if tag != "" {
 			f = strings.TrimSuffix(file, ".smt2") + "." + tag + ".smt2"
 		}
-		writeFile(f, e.buildQueryX(o, extra, true, relaxed))
+		// the query goes out without the (large) get-value request; only a sat answer is asked again for its model
+		writeFile(f, e.buildQueryX(o, extra, false, relaxed))
 		sr := runQuery(f, opts.TimeoutS, agree, nil)
 		if sr.Status == "unknown" && !relaxed {
-			sr2 := runQueryRetry(f, opts.TimeoutS*3, agree)
+			rt := opts.TimeoutS * 3
+			if rt < 60 {
+				rt = 60 // a loaded machine must not turn a slow proof into an alarm
+			}
+			sr2 := runQueryRetry(f, rt, agree)
 			sr2.Millis += sr.Millis
 			sr = sr2
+		}
+		if sr.Status == "sat" {
+			fm := strings.TrimSuffix(f, ".smt2") + ".model.smt2"
+			writeFile(fm, e.buildQueryX(o, extra, true, relaxed))
+			base := strings.SplitN(sr.Backend, "/", 2)[0]
+			if srm := runQuery(fm, opts.TimeoutS*3, 1, []string{base}); srm.Status == "sat" {
+				sr.Output = srm.Output
+			}
 		}
 		return sr
 	}
